@@ -45,26 +45,26 @@ const (
 var cbNames = []string{"accept", "not-coordinator", "coordinator-not-available", "metadata-too-large", "load-in-progress", "unknown-topic", "other", "omit-block", "drop", "coordinator-moved", "partial"}
 
 type omScenario struct {
-	Brokers    int
-	Parts      int
-	Auto       bool
-	IntervalMs int
-	RetryMax   int
-	Retention  time.Duration
-	Initial    int64     // OffsetOldest / OffsetNewest
-	Stored     []int64   // initial stored offset per partition, -1 = none
-	Markers    int       // goroutines
-	Ops        [][]omOp  // per marker
-	Behaviours []int
-	Steer      []steerSpec // kinds: built-marks | resp-marks
+	Brokers       int
+	Parts         int
+	Auto          bool
+	IntervalMs    int
+	RetryMax      int
+	Retention     time.Duration
+	Initial       int64    // OffsetOldest / OffsetNewest
+	Stored        []int64  // initial stored offset per partition, -1 = none
+	Markers       int      // goroutines
+	Ops           [][]omOp // per marker
+	Behaviours    []int
+	Steer         []steerSpec // kinds: built-marks | resp-marks
 	ManualCommits int
 }
 
 type omOp struct {
-	Kind string // mark | reset | next
-	Part int
-	Off  int64
-	Meta string
+	Kind    string // mark | reset | next
+	Part    int
+	Off     int64
+	Meta    string
 	PauseUs int
 }
 
@@ -238,22 +238,22 @@ func (sc *omScenario) describe() map[string]interface{} {
 }
 
 type omResult struct {
-	sc       *omScenario
-	newErr   error
-	events   []omEvent
-	hooks    []hookEv
-	group    []sarama.VSimGroupEvent
-	final    []omState
-	finalOK  []bool
+	sc                  *omScenario
+	newErr              error
+	events              []omEvent
+	hooks               []hookEv
+	group               []sarama.VSimGroupEvent
+	final               []omState
+	finalOK             []bool
 	closeCall, closeRet int64
-	finalFrom int64
-	stuck    bool
-	stuckWho []string
-	inconcl  string
-	rules    []*steerRule
-	behavioursUsed int
-	tailClean bool // the fault word was exhausted before the final flushes
-	errsSeen int64
+	finalFrom           int64
+	stuck               bool
+	stuckWho            []string
+	inconcl             string
+	rules               []*steerRule
+	behavioursUsed      int
+	tailClean           bool // the fault word was exhausted before the final flushes
+	errsSeen            int64
 }
 
 func (e *omEngine) Count(prop, tier string, seed int64) int {
@@ -746,7 +746,9 @@ func sameBlocks(a, b []sarama.VSimCommitBlock) bool {
 	if len(a) != len(b) {
 		return false
 	}
-	key := func(x sarama.VSimCommitBlock) string { return fmt.Sprintf("%s/%d/%d/%s", x.Topic, x.Partition, x.Offset, x.Metadata) }
+	key := func(x sarama.VSimCommitBlock) string {
+		return fmt.Sprintf("%s/%d/%d/%s", x.Topic, x.Partition, x.Offset, x.Metadata)
+	}
 	m := map[string]int{}
 	for _, x := range a {
 		m[key(x)]++
